@@ -958,3 +958,12 @@ Proof.
   intros. cbn [tstep]. destruct (find_att s i (st_atts (t_st ts))) as [a|]; [|split; reflexivity].
   destruct (a_state a); try (split; reflexivity). destruct (a_rtmp a); split; reflexivity.
 Qed.
+
+(* an event that is not a tick acts on the server exactly as in the base machine *)
+Lemma tstep_TEv_state : forall fx cf ts e0, (forall c, e0 <> ETick c) ->
+  t_st (fst (fst (tstep fx cf ts (TEv e0)))) = fst (fst (step fx cf (t_st ts) e0)).
+Proof.
+  intros fx cf ts e0 H.
+  destruct e0; try (cbn [tstep]; match goal with |- context[step fx cf (t_st ts) ?ev] => destruct (step fx cf (t_st ts) ev) as [[st1 r] ns] end; reflexivity).
+  exfalso. eapply H. reflexivity.
+Qed.
